@@ -236,7 +236,7 @@ static void gen_tree(vfh::Rng &r, Tree &t, int depth, const GenOpt &g, long &nod
     else {
       bool m = g.value_meta && r.coin(0.6);
       std::string core = gen_text(r, m, true, 16);
-      if (core.find_first_of("&<") != std::string::npos) has_meta_value = true;
+      if (core.find_first_of("&<") != std::string::npos || core.find("]]>") != std::string::npos) has_meta_value = true;
       std::string pre = r.coin(0.3) ? (r.coin() ? " " : "\n\t") : "", post = r.coin(0.3) ? (r.coin() ? "  " : "\n") : "";
       t.value = pre + core + post;
     }
